@@ -190,10 +190,28 @@ def load_known(prop: str) -> list[dict]:
     return [e for e in data.get("findings", []) if e.get("property") == prop]
 
 
-def known_bucket_index(entries: list[dict]) -> dict[str, dict]:
-    idx = {}
+class KnownIndex(dict):
+    """bucket -> entry; entries may also list `bucket_prefixes` (one root cause with an open-ended set of call sites)."""
+
+    def __init__(self):
+        super().__init__()
+        self.prefixes = []
+
+    def lookup(self, bucket):
+        if bucket in self:
+            return self[bucket]
+        for p, e in self.prefixes:
+            if bucket.startswith(p):
+                return e
+        return None
+
+
+def known_bucket_index(entries: list[dict]) -> KnownIndex:
+    idx = KnownIndex()
     for e in entries:
         if e.get("status") == "known":
             for b in e.get("buckets", []):
                 idx[b] = e
+            for p in e.get("bucket_prefixes", []):
+                idx.prefixes.append((p, e))
     return idx
